@@ -46,7 +46,7 @@ def run(ctx):
         ctx.violation("translator-rejected", "py2coq cannot translate calculate_largest_power/base: " + str(e), {"error": str(e)})
         return 0
     (COQ / "C20" / "GenPow.v").write_text(text)
-    b = ctx.coq_build(["C20/Loop.v", "C20/GenPow.v", "C20/PowGuards.v", "C20/PropsPow.v"])
+    b = ctx.coq_build(["C20/Loop.v", "C20/GenPow.v", "C20/PowGuards.v", "C20/PropsPow.v"], timeout=240)
     model_ok = (COQ / "C20" / "GenPow.vo").exists() and (b["ok"] or "GenPow" not in b.get("file", ""))
     from vyper.codegen.arithmetic import calculate_largest_base, calculate_largest_power
     rnd = ctx.rng("pow")
